@@ -88,6 +88,11 @@ def c14_program(draw):
             steps.append({"op": "C14", "fe": fe, "coll": "a1", "name": draw(st.sampled_from(vcf)), "ctype": "text/vcard", "body": enc_body(raw), "valid": False, "klass": "vcard-" + k})
         if draw(st.integers(0, 9)) == 0:
             steps.append({"op": "RESTART"})
+        if draw(st.integers(0, 7)) == 0:
+            # the collection is deleted and created again at the same URL in the running server
+            slot = draw(st.sampled_from(["c1", "c1", "a1"]))
+            steps.append({"op": "DELETE", "fe": fe, "coll": slot, "name": None, "slash": draw(st.booleans())})
+            steps.append({"op": "MKCOL", "fe": draw(gen_prog.FE), "coll": slot, "kind": {"c1": draw(st.sampled_from(["mkcalendar", "ext-calendar"])), "a1": "ext-addressbook"}[slot], "props": [], "slash": draw(st.booleans())})
     return {"config": cfg, "steps": steps}
 
 
